@@ -89,7 +89,7 @@ func checkB1(c *Ctx, pr *prioRoles) {
 		}
 		return string(b)
 	}
-	tagParam := p.Sym(fn.Params[pr.sendPrioIdx]).String()
+	tagParam := pr.sendTag.StripInst().String()
 	fl := &Flow{P: p}
 	fl.Instr = func(fr *Frame, st string, in ssa.Instruction) []string {
 		if s, ok := in.(*ssa.Send); ok && isOutRole(p.chanRole(s.Chan)) {
@@ -271,7 +271,11 @@ func checkB2(c *Ctx, pr *prioRoles) {
 		fk := p.FnKey(fn)
 		ord[fk]++
 		key := fmt.Sprintf("%s#send.%d", fk, ord[fk])
-		keyV := cs.Common().Args[pr.sendPrioIdx]
+		keyV := pr.sendKeyAt(cs)
+		if keyV == nil {
+			c.R.Fail("B2", key, p.InstrPos(cs), "UNDECIDED: cannot tell under which priority this call sends")
+			continue
+		}
 		argKey := p.Sym(keyV).StripInst().String()
 		ok, why := guarded(cs, keyV, 0)
 		c.R.Check(ok, "B2", key, p.InstrPos(cs), "guarded by tactic["+argKey+"] != 0", "an item can be written to the output without allowance: "+why)
